@@ -1026,12 +1026,16 @@ func c06Sequences(w *core.W, j int) {
 			[]exp{{"h.a.example.", 100}, {"h.a.example.", 200}, {"h.a.example.", 3600}}},
 		seq{"$TTL-wins-over-explicit-inside-include", "$ORIGIN a.example.\n$TTL 300\n$INCLUDE ttl.db\nafter A 192.0.2.3\n",
 			[]exp{{"one.a.example.", 600}, {"two.a.example.", 300}, {"after.a.example.", 300}}},
+		seq{"include-line-produced-by-generate-uses-the-include-FS", "$ORIGIN a.example.\n$GENERATE 0-1 $$INCLUDE gen$.db\n",
+			[]exp{{"g0.a.example.", 60}, {"g1.a.example.", 61}}},
 		seq{"$TTL-wins-over-explicit", "$ORIGIN a.example.\n$TTL 300\none 600 A 192.0.2.1\ntwo A 192.0.2.2\n",
 			[]exp{{"one.a.example.", 600}, {"two.a.example.", 300}}},
 	)
 	files := fstest.MapFS{
 		"zones/seq.db": &fstest.MapFile{Data: []byte("www 77 IN A 192.0.2.7\n@ 77 IN A 192.0.2.7\na.b 77 IN A 192.0.2.7\n* 77 IN A 192.0.2.7\nWWW 77 IN A 192.0.2.7\n")},
 		"zones/ttl.db": &fstest.MapFile{Data: []byte("one 600 A 192.0.2.1\ntwo A 192.0.2.2\n")},
+		"zones/gen0.db": &fstest.MapFile{Data: []byte("g0 60 A 192.0.2.1\n")},
+		"zones/gen1.db": &fstest.MapFile{Data: []byte("g1 61 A 192.0.2.1\n")},
 	}
 	for _, sq := range seqs {
 		w.Eval(1)
